@@ -15,9 +15,9 @@ import random
 TAG_POOL = ["a", "b", "c", "d", "wip", "slow", "setup", "teardown",
             "always", "skip", "xfail", "t.x", "k=v", "small", "install", "t.x.y",
             "android", "sensor", "notify",      # (names that CONTAIN the words and / or / not)
-            "bug#12"]                           # ('#' inside a tag is part of the tag)
+            "bug#12", "cov100%"]                # ('#' and '%' inside a tag are part of the tag)
 PLAIN_TAGS = ["a", "b", "c", "d", "slow", "always", "skip", "xfail", "t.x", "k=v", "small", "install", "t.x.y",
-              "android", "sensor", "notify", "bug#12"]
+              "android", "sensor", "notify", "bug#12", "cov100%"]
 HOOK_NAMES = ["before_all", "after_all", "before_feature", "after_feature",
               "before_rule", "after_rule", "before_scenario", "after_scenario",
               "before_step", "after_step", "before_tag", "after_tag"]
@@ -37,7 +37,13 @@ def gen_tagexpr(rng, tags, depth=0):
     if depth >= 2 or r < 0.45:
         t = rng.choice(tags)
         if rng.random() < 0.08:
-            return ["glob", t[0] + "*"]
+            # wildcard forms: prefix*, one-character '?', character class
+            r_ = rng.random()
+            if r_ < 0.6 or len(t) < 2:
+                return ["glob", t[0] + "*"]
+            if r_ < 0.8:
+                return ["glob", t[:-1] + "?"]
+            return ["glob", "[%sz]%s" % (t[0], t[1:])]
         return ["tag", t]
     if r < 0.62:
         return ["not", gen_tagexpr(rng, tags, depth + 1)]
@@ -146,7 +152,7 @@ def gen_value(rng, ftype):
         return "%d.%d" % (rng.randint(0, 99), rng.randint(0, 99))
     if ftype == "Color":
         # BAD: the converter raises ValueError; WORSE: it raises KeyError (any exception is a conversion error)
-        return rng.choice(COLORS + ["BAD", "WORSE"] if rng.random() < 0.15 else COLORS)
+        return rng.choice(COLORS + ["BAD", "WORSE", "ASSERT"] if rng.random() < 0.15 else COLORS)
     if ftype == "w":
         return "".join(rng.choice("ABCDEFGH") for _ in range(rng.randint(1, 4)))
     n = rng.randint(1, 2)
@@ -381,7 +387,7 @@ def gen_scenario(rng, lib, sid, opts):
     n = rng.randint(opts["min_steps"], opts["max_steps"])
     return {"kind": "scenario", "id": sid,
             "name": "" if rng.random() < 0.03 else
-            "sc %s %s%s" % (sid, rng.choice(["alpha", "beta", "gamma"]), hostile_suffix(rng, opts)),
+            "sc %s %s%s" % (sid, rng.choice(["alpha", "beta", "gamma", '"alpha"', "alphabet"]), hostile_suffix(rng, opts)),
             "tags": gen_tags(rng, opts["tag_pool"], opts["p_tag"]),
             "steps": gen_steps(rng, lib, n, opts),
             "kwd": rng.choice(["Scenario", "Scenario", "Example"])}
@@ -393,6 +399,11 @@ def gen_outline(rng, lib, sid, opts):
     cols = ["cx", "cy"][:rng.randint(1, 2)]
     if rng.random() < 0.15:
         cols.append("cxy")      # a column name that extends another one
+    r_ = rng.random()
+    if r_ < 0.05:
+        cols[0] = "c-z"         # a column name that is no identifier
+    elif r_ < 0.08:
+        cols[0] = rng.choice(["row.id", "examples.name"])      # a column named like a special placeholder: the column wins
     # put placeholders into some step texts: replace one value token by <col>
     # keeps things simple: a placeholder replaces the *whole* text of an
     # undefined step or is appended to a doc-string / table cell
@@ -767,11 +778,15 @@ def gen_outcome(rng, dims):
         return {"kind": "ok"}
     k = rng.choice(kinds)
     o = {"kind": k}
+    if k in ("assert", "exc") and "skip" in kinds and rng.random() < 0.15:
+        o["pre_skip"] = True        # the step first calls scenario.skip(), then fails all the same
     if k == "assert":
         o["msg"] = gen_message(rng, dims["hostile"]) if rng.random() < 0.8 else None
     elif k == "exc":
         o["cls"] = rng.choice(EXC_CLASSES)
         o["msg"] = gen_message(rng, dims["hostile"])
+    elif k == "skip" and dims["hostile"] and rng.random() < 0.6:
+        o["reason"] = "why " + "".join(rng.choice(HOSTILE) for _ in range(rng.randint(1, 3))) + " z"
     elif k == "notimpl":
         o["msg"] = "todo%d" % rng.randint(0, 9)
         if rng.random() < 0.4:
@@ -886,7 +901,7 @@ def gen_actions(rng, world, dims, where):
                 if a["a"] == "print" and rng.random() < 0.5:
                     a["text"] = " " + "".join(rng.choice(HOSTILE) for _ in range(rng.randint(1, 3))) + " z"
         if rng.random() < 0.3:
-            acts.append({"a": "log", "logger": rng.choice(["", "foo", "foo.bar", "baz"]),
+            acts.append({"a": "log", "logger": rng.choice(["", "foo", "foo.bar", "baz", "foobar", "bazaar"]),
                          "level": rng.choice(["DEBUG", "INFO", "WARNING", "ERROR"])})
         if where == "step" and rng.random() < dims.get("p_log_burst", 0.0):
             acts.append({"a": "log_burst", "n": 1005})
@@ -904,7 +919,7 @@ def gen_actions(rng, world, dims, where):
         if kind == "layer":
             act["layer"] = rng.choice(["testrun", "feature", "rule", "scenario"])
         if rng.random() < dims["p_cleanup_fail"]:
-            act["raises"] = rng.choice(["Exception", "AssertionError"])
+            act["raises"] = rng.choice(["Exception", "AssertionError", "Exception", "AssertionError", "StopIteration"])
         if kind == "fixture" and rng.random() < 0.1:
             act["setup_raises"] = True
         acts.append(act)
@@ -952,7 +967,7 @@ def gen_script(rng, world, dims):
         ent = {"acts": gen_actions(rng, world, dims, name), "out": {"kind": "ok"}}
         if rng.random() < dims["p_hook_fail"]:
             ent["out"] = {"kind": rng.choice(["exc", "assert"]),
-                          "cls": rng.choice(EXC_CLASSES),
+                          "cls": rng.choice(EXC_CLASSES + ["behave.exception:ConfigError"]),
                           "msg": gen_message(rng, dims["hostile"])}
             if dims.get("hook_interrupts") and rng.random() < 0.5:
                 ent["out"] = {"kind": "kbi"}      # the user's Ctrl-C arrives while this hook runs
@@ -1104,6 +1119,8 @@ def gen_config(rng, world, dims):
                 pats.append(rng.choice(["alpha", "beta", "gamma", "S0", "S1", "O1", "R0"]))
             else:
                 pats.append(rng.choice([r"S\d$", r"^sc F0", r"al|ga", r"E0\.R1|@1\.2", r"-- @1"]))
+            if rng.random() < 0.08:
+                pats[-1] = rng.choice(['"alpha"', '"beta"', "'gamma'"])     # quotes are part of the pattern
             if names and rng.random() < 0.15:
                 # a pattern with a significant leading/trailing blank (word boundary inside a name)
                 words = rng.choice(names).split(" ")
